@@ -165,7 +165,7 @@ theorem C04_rto_collapse (k : Kcp) (now : U32) (hn : k.nocwnd = 0) (hl : flushLo
 
 /-- the hypothesis in terms of the state before the flush: some unacknowledged, already transmitted
 segment without pending fast-ack count is overdue -/
-theorem C04_rto_collapse' (k : Kcp) (now : U32) (hn : k.nocwnd = 0) (s : Seg) (hs : s ∈ k.snd_buf)
+theorem C04_rto_collapse_overdue (k : Kcp) (now : U32) (hn : k.nocwnd = 0) (s : Seg) (hs : s ∈ k.snd_buf)
     (ha : s.acked = false) (hx : s.xmit ≠ 0) (hf : s.fastack = 0 ∨ s.fastack = 0xFFFFFFFF#32)
     (hd : itimediff now s.resendts ≥ 0) : (flush k true now).k.cwnd = 1 :=
   flush_rto_collapse k now hn (flushLost_pos k now s hs ha hx hf hd)
